@@ -297,6 +297,9 @@ func (v *Voucher) VerifyEntries() error {
 
 	// The algorithm used for hashing entries should always match the one used
 	// during the very first extension
+	if v.Entries[0].Payload == nil {
+		return fmt.Errorf("voucher entry payload 0 is missing")
+	}
 	alg := v.Entries[0].Payload.Val.PreviousHash.Algorithm
 
 	var initialHash hash.Hash
